@@ -49,6 +49,12 @@ class Call:
         self.rpath = norm_collections(r["path"]) if r else None  # resolved (or declared) callee path
         self.local = bool(r and r["local"])
         self.rkey = r["key"] if r else None
+        ren = getattr(fn, "ren", None)
+        if ren:
+            if self.rkey in ren:
+                self.rpath = ren[self.rkey]
+            if ce and ce.get("key") in ren:
+                self.path = ren[ce["key"]]
         self.args = term["args"]
         self.dest = term["dest"]
         self.target = term["target"]
@@ -287,9 +293,22 @@ def control_deps_transitive(fn):
 
 
 class Mir:
-    def __init__(self, path):
+    def __init__(self, path, canonical_roles=True):
         with open(path) as f:
-            self.j = json.load(f)
+            raw = f.read()
+        self.j = json.loads(raw)
+        self.type_ren = {}
+        if canonical_roles:
+            # private types found by their structure are given their canonical names (textually, in this in-memory
+            # copy of the facts): no rule depends on what a private type happens to be called
+            from .roles import type_renames
+            try:
+                self.type_ren = type_renames(self.j["adts"], self.j["impls"])
+            except Exception:
+                self.type_ren = {}
+            if self.type_ren:
+                raw = re.sub(r"\b(%s)\b" % "|".join(re.escape(k) for k in self.type_ren), lambda m: self.type_ren[m.group(1)], raw)
+                self.j = json.loads(raw)
         self.fns = {}
         self.by_path = defaultdict(list)
         for fj in self.j["fns"]:
@@ -304,6 +323,45 @@ class Mir:
         for fn in self.fns.values():
             if fn.kind == "Closure" and fn.parent:
                 self._closures_of[fn.parent].append(fn)
+        self.ren = {}
+        if canonical_roles:
+            self._canonical_role_names()
+
+    def _canonical_role_names(self):
+        """functions found by role (kv/roles.py: signature types, never names) are given their canonical names in
+        this in-memory view — their own path, the paths of their closures, and every call or function reference that
+        resolves to them — so that no rule depends on what a private function happens to be called today"""
+        from .roles import Roles
+        try:
+            R = Roles(self)
+            todo = []
+            for role, cname in list(R.CANONICAL.items()):
+                f = getattr(R, role)
+                if f is not None and f.name != cname:
+                    todo.append((f, cname))
+            for role, cname in R.CANONICAL_MANY.items():
+                for f in getattr(R, role):
+                    if f.name != cname:
+                        todo.append((f, cname))
+        except Exception:
+            return
+        for (f, cname) in todo:
+            old = f.path
+            new = old[:len(old) - len(f.name)] + cname if old.endswith(f.name) else old
+            if new == old:
+                continue
+            for g in self.fns.values():
+                if g.key == f.key:
+                    g.path, g.name = new, cname
+                    self.ren[g.key] = new
+                elif g.path.startswith(old + "::"):
+                    g.path = new + g.path[len(old):]
+                    self.ren[g.key] = g.path
+        if self.ren:
+            self.by_path = defaultdict(list)
+            for g in self.fns.values():
+                g.ren = self.ren
+                self.by_path[g.path].append(g)
 
     def fn_by_path(self, path):
         l = self.by_path.get(path, [])
@@ -515,7 +573,9 @@ class Exprs:
     def operand(self, op, depth=0, stack=()):
         if op["k"] == "const":
             if "fn" in op:
-                return E("const", "fn:" + (op["fn"].get("resolved") or op["fn"])["path"])
+                fr_ = op["fn"].get("resolved") or op["fn"]
+                ren_ = getattr(self.fn, "ren", None)
+                return E("const", "fn:" + (ren_[fr_["key"]] if ren_ and fr_.get("key") in ren_ else fr_["path"]))
             return E("const", op["v"])
         if op["k"] in ("copy", "move"):
             return self.place(op["pl"], depth, stack)
@@ -781,6 +841,21 @@ def reach_from(fn, start_blocks, stop=frozenset()):
 UNCHECKED_AS_CHECKED = False
 
 
+ENTRY_AS_GET_INSERT = True
+
+
+def entry_of(x):
+    """x = the payload of an `Entry` obtained from `M.entry(K)`: returns (M, K, "HashMap"|"BTreeMap") or None"""
+    x = strip_transparent(x)
+    if x.k == "field":
+        x = strip_transparent(x.a[0])
+    if x.k == "downcast":
+        x = strip_transparent(x.a[0])
+    if x.k == "call" and short_path(x.a[0]).endswith(("HashMap::entry", "BTreeMap::entry")) and len(x.a[1]) == 2:
+        return x.a[1][0], x.a[1][1], short_path(x.a[0]).rsplit("::", 1)[0].rsplit("::", 1)[-1]
+    return None
+
+
 def canon(e, depth=0):
     """canonical compact rendering of a value expression with views/copies peeled everywhere
     (refs, derefs, clones, to_owned, deref calls ...), for structural comparison in rules"""
@@ -794,7 +869,18 @@ def canon(e, depth=0):
     if k == "const":
         return "const(%s)" % e.a[0]
     if k == "call":
-        return "%s(%s)" % (short_path(e.a[0]), ", ".join(canon(x, d) for x in e.a[1]))
+        sp_ = short_path(e.a[0])
+        if ENTRY_AS_GET_INSERT and sp_.endswith(("OccupiedEntry::get", "OccupiedEntry::get_mut", "OccupiedEntry::into_mut", "VacantEntry::insert")) and e.a[1]:
+            # the entry API read as the look-up / insert it stands for:
+            #   entry(M, K) is Occupied(o): o.get()      ==  (M.get(K) as Some).0
+            #   entry(M, K) is Vacant(v):   v.insert(V)  ==  M.insert(K, V)   (on the miss of that same key)
+            mk = entry_of(e.a[1][0])
+            if mk is not None:
+                if sp_.endswith("VacantEntry::insert") and len(e.a[1]) == 2:
+                    return "%s::insert(%s, %s, %s)" % (mk[2], canon(mk[0], d), canon(mk[1], d), canon(e.a[1][1], d))
+                if not sp_.endswith("VacantEntry::insert"):
+                    return "(%s::get(%s, %s) as Some).0" % (mk[2], canon(mk[0], d), canon(mk[1], d))
+        return "%s(%s)" % (sp_, ", ".join(canon(x, d) for x in e.a[1]))
     if k == "agg":
         return "%s{%s}" % (short_path(e.a[1]), ", ".join(canon(x, d) for x in e.a[2]))
     if k == "field":
@@ -1094,3 +1180,34 @@ def lift_closure_canon(s, cctx):
 
     # one simultaneous pass: a captured `param2` of the parent must not be taken for the closure's own argument
     return re.sub(r"\bparam1\.(\d+)\b|\bparam2\b", sub, s)
+
+
+CALLABLE_RE = r"(?:[\w:]+::\{closure#\d+\}\{[^{}]*\}|const\(fn:[^()]+\))"
+
+
+def callable_fn(mir, parent, text):
+    """the function behind a callable argument as canon renders it — a closure of `parent` (`p::{closure#k}{caps}`) or
+    a function item passed by path (`const(fn:path)`) — and the shift that makes its parameters read like a closure's
+    (closure: param1 = environment, arguments from param2; function item: arguments from param1)"""
+    m = re.match(r"^[\w:]+::(\{closure#\d+\})\{.*\}$", text)
+    if m:
+        cl = [g for g in mir.fns.values() if g.kind == "Closure" and g.parent == parent.key and g.path.endswith(m.group(1))]
+        return (cl[0], 0) if len(cl) == 1 else (None, 0)
+    m = re.match(r"^const\(fn:(.+)\)$", text)
+    if m:
+        fs = mir.by_path.get(m.group(1), [])
+        fs = [g for g in fs if g.kind in ("Fn", "AssocFn")]
+        return (fs[0], 1) if len(fs) == 1 else (None, 0)
+    return None, 0
+
+
+def shift_params(s, k):
+    return re.sub(r"\bparam(\d+)\b", lambda m: "param%d" % (int(m.group(1)) + k), s) if k else s
+
+
+def callable_result(mir, parent, text):
+    """canonical return value of a callable argument, with parameters numbered as in a closure"""
+    g, k = callable_fn(mir, parent, text)
+    if g is None:
+        return None
+    return shift_params(canon(Exprs(g).local(0)), k)
